@@ -1,0 +1,16 @@
+// +build verif
+
+package fileutil
+
+import "os"
+
+// VerifSyncHook, when set, observes every Fsync/Fdatasync issued through this
+// package right after it completed (the file's current content is durable at
+// that instant). Only compiled with the verif build tag.
+var VerifSyncHook func(f *os.File)
+
+func verifSyncPoint(f *os.File) {
+	if h := VerifSyncHook; h != nil {
+		h(f)
+	}
+}
